@@ -302,3 +302,89 @@ Proof.
   split; [vm_compute; reflexivity|]. split; vm_compute; reflexivity.
 Qed.
 End C01_translated_sbuf.
+
+(* ------------------------------------------------------------------------------------------ *)
+(* THE MODEL IS THE C TEXT (coq/TrWrite.v): the WRITE path of /repo/lbuf.c -- write_fully and lbuf_wr --, translated by
+   tools/c2clite.py (coq/GenCFuncs.v, whitelist tools/c2clite.d/99a_write.list; `buf + nw` on the void pointer scales by one cell,
+   GNU C's sizeof(void) == 1) and RUN by the checked semantics of coq/CLite.v.  write(2) and ftruncate(2) are not C text of /repo:
+   they are calls to untranslated functions, answered by an ORACLE (coq/CLiteExt.v: callx).  kernel_oracle ext ks kl: on those two
+   calls ext is the kernel of the model -- block ks of the memory holds the schedule of write outcomes still to come
+   (IoDefs.outcome: full, error, short count k; one consumed per call, in order; exhausted = success in full), block kl the LOG of
+   the calls made (TrWrite.event: EvWrite fd bytes result / EvTrunc fd length); write(2) reads the n cells at its pointer CHECKED
+   inside their block and refuses a cell that is not a byte value (an indeterminate cell of the batch buffer would be Err EUndef).
+   For EVERY such oracle, EVERY schedule s, EVERY log so far:
+     C01_tr_write_fully   write_fully(fd, buf, sz) on sz bytes p standing in a block makes exactly the calls of wf_run fd p s --
+                          each call from the pointer advanced by the counts accepted so far --, returns sz or -1, and the
+                          bytes that reached the file, the success flag and the schedule left are IoDefs.write_fully p s;
+     C01_tr_lbuf_wr       lbuf_wr(lb, fd, beg, end) on a buffer in memory (lines_at: struct lbuf -> line table -> one
+                          NUL-terminated block per line) hands write_fully exactly the payloads outp (IoDefs.lbuf_wr lines beg end)
+                          -- by C01_batches: batches of at most 4096 bytes, or single lines of at least 4096 bytes, partitioning
+                          the range in order --, stops at the first that fails, returns 0 iff none failed and only then calls
+                          ftruncate(fd, wsz) with the model's byte count (= the length of the range, C01_batches).  That the call
+                          returns Ok says: the 4096-cell batch block (the local char buf[4096]) was never overrun by a memcpy
+                          and no cell beyond the batched bytes was handed to write. *)
+From NV Require CLite CLiteProps GenCFuncs CLiteExt TrWrite.
+Section C01_translated_write.
+Import CLite CLiteProps GenCFuncs CLiteExt TrWrite.
+
+Theorem C01_tr_write_fully : forall ext ks kl fd b o (blk : block) (p : bytes) s lg m d fuel,
+  kernel_oracle ext ks kl -> world_at ks kl m s lg -> nth_error m b = Some blk -> b <> ks -> b <> kl ->
+  (0 <= o)%Z -> bytes_in blk (Z.to_nat o) p -> bytes_lt256 p -> (Z.of_nat (length p) <= 4611686018427387904)%Z ->
+  (length s + 2 <= fuel)%nat ->
+  let '(ev, ok, r) := wf_run fd p s in
+  callx ext cprog fuel (S (S d)) F_lbuf_write_fully [VInt fd; VPtr b o; VInt (Z.of_nat (length p))] m
+  = Ok (VInt (if ok then Z.of_nat (length p) else -1), set_world ks kl m r (lg ++ ev)) /\
+  IoDefs.write_fully p s = (reached ev, ok, r) /\
+  exists used, s = used ++ r /\ (ok = false <-> In IoDefs.OErr used).
+Proof. exact tr_write_fully_full. Qed.
+Print Assumptions C01_tr_write_fully.
+
+Theorem C01_tr_lbuf_wr : forall ext ks kl m lb bln lbs lines fd beg en s lg d fuel,
+  kernel_oracle ext ks kl -> world_at ks kl m s lg -> lines_at ks kl m lb bln lbs lines ->
+  (en <= length lines)%nat -> (Z.of_nat (length lines) <= 2147483647)%Z ->
+  (Z.of_nat (length (concat lines)) <= 4611686018427387904)%Z ->
+  (length s + 2 <= fuel)%nat -> (en - beg + 2 <= fuel)%nat ->
+  let w := IoDefs.lbuf_wr lines beg en in
+  let '(ev, ok, r) := wa_run fd (outp w) s in
+  exists bufblk',
+    callx ext cprog fuel (S (S (S d))) F_lbuf_wr [VPtr lb 0; VInt fd; VInt (Z.of_nat beg); VInt (Z.of_nat en)] m
+    = Ok (VInt (if ok then 0 else 1),
+          wm ks kl m bufblk' r (lg ++ ev ++ if ok then [EvTrunc fd (Z.of_nat (wsz w))] else [])).
+Proof. exact tr_lbuf_wr. Qed.
+Print Assumptions C01_tr_lbuf_wr.
+
+(* not vacuous, and the translated write_fully RUNS (ex_wf: fd 5, block 0 holds the bytes, block 1 the schedule, block 2 the log) *)
+Example C01_tr_write_nonvacuous :
+  let p := [97; 98; 99; 10]%N in
+  kernel_oracle (sys 1 2) 1 2 /\ world_at 1 2 [cstr_block (zb p); enc_sch [OShort 1; OOk]; []] [OShort 1; OOk] [] /\
+  bytes_in (cstr_block (zb p)) 0 p /\ bytes_lt256 p /\
+  (* a short count, then success: two calls, the second from the advanced pointer *)
+  ex_wf (cstr_block (zb p)) 4%Z [OShort 1; OOk]
+    = Ok (VInt 4, [cstr_block (zb p); []; enc_log [EvWrite 5 p 1; EvWrite 5 [98; 99; 10]%N 3]]) /\
+  IoDefs.write_fully p [OShort 1; OOk] = (p, true, []) /\
+  (* a short count, then an error: -1, the third outcome is not consumed *)
+  ex_wf (cstr_block (zb p)) 4%Z [OShort 2; IoDefs.OErr; OOk]
+    = Ok (VInt (-1), [cstr_block (zb p); enc_sch [OOk]; enc_log [EvWrite 5 p 2; EvWrite 5 [99; 10]%N (-1)]]) /\
+  IoDefs.write_fully p [OShort 2; IoDefs.OErr; OOk] = ([97; 98]%N, false, [OOk]) /\
+  (* a count that leaves the block, and an indeterminate cell handed to write(2), are errors of the semantics *)
+  ex_wf (cstr_block (zb p)) 6%Z [] = Err EOob /\ ex_wf [VInt 97; VUndef] 2%Z [] = Err EUndef.
+Proof.
+  cbv zeta. split; [apply sys_kernel; discriminate|]. split; [split; reflexivity|].
+  split; [apply bytes_in_cstr|]. split; [repeat constructor|]. vm_compute. repeat split.
+Qed.
+
+(* lbuf_wr RUNS (ex_wr: the buffer ex_lines = "ab\n", "c\n" and a line of 4096 bytes, fd 7, range 0..3) *)
+Example C01_tr_lbuf_wr_nonvacuous :
+  lines_at 5 6 (ex_mem []) 0 1 [2; 3; 4]%nat ex_lines /\ world_at 5 6 (ex_mem []) [] [] /\
+  outp (IoDefs.lbuf_wr ex_lines 0 3) = [[97; 98; 10; 99; 10]%N; ex_long] /\ wsz (IoDefs.lbuf_wr ex_lines 0 3) = 4101%nat /\
+  (* no fault: the batch, the long line written directly from its own block, the truncation *)
+  ex_wr [] = Some (VInt 0, enc_log [EvWrite 7 [97; 98; 10; 99; 10]%N 5; EvWrite 7 ex_long 4096; EvTrunc 7 4101]) /\
+  (* the flush fails: 1 is returned at once, the long line is not written, no truncation *)
+  ex_wr [IoDefs.OErr; OOk] = Some (VInt 1, enc_log [EvWrite 7 [97; 98; 10; 99; 10]%N (-1)]) /\
+  (* the direct write of the long line is cut short and then fails *)
+  ex_wr [OOk; OShort 4000; IoDefs.OErr]
+    = Some (VInt 1, enc_log [EvWrite 7 [97; 98; 10; 99; 10]%N 5; EvWrite 7 ex_long 4000; EvWrite 7 (skipn 4000 ex_long) (-1)]).
+Proof.
+  split; [apply ex_lines_at|]. split; [split; reflexivity|]. vm_compute. repeat split.
+Qed.
+End C01_translated_write.
